@@ -56,7 +56,7 @@ class C12(C02):
         return ex
 
     def draw_hazards(self, rng, tier):
-        return {"names": True} if rng.random() < 0.25 else {}
+        return {"names": True} if rng.random() < 0.35 else {}
 
     def header(self, rng, tier, index):
         h = super().header(rng, tier, index)
@@ -65,6 +65,13 @@ class C12(C02):
         env = rng.choice(GIT_ENVS) if rng.random() < 0.4 else {}
         h["variant"] = {"world": {"gitconfig": [list(k) for k in knobs]}, "context": ctx, "git_env": env, "subdir": "src"}
         h["init"]["files"]["src/keep.txt"] = "L0 keep this directory\n"
+        if h["cfg"]["hazards"].get("names"):
+            # names that git prints quoted under every core.quotePath setting, with and without raw UTF-8 inside
+            special = rng.choice(["caf\u00e9\"q.txt", "\u65e5\u672c \"x\".txt", "tab\there \u00fc.txt"])
+            h["init"]["files"][special] = "L%d special name line\nL%d special name line\n" % (h["next_id"], h["next_id"] + 1)
+            h["next_id"] += 2
+            if rng.random() < 0.5 and ["core", "quotePath", "false"] not in h["variant"]["world"]["gitconfig"]:
+                h["variant"]["world"]["gitconfig"].append(["core", "quotePath", "false"])
         h["init"]["attributes"] = {".gitattributes": "*.txt diff=upper\n*.md diff=upper\n"}
         return h
 
